@@ -7,7 +7,7 @@ R=${SEEDROOT:-/tmp/seed2}; WT=$R/wt-$P; OUT=$R/out/$P; DST=/verif/seeded/$P$V
 cd $WT || exit 2
 git checkout -q -- . ; git clean -qfd
 [ -f $OUT/patch_$V.diff ] || { echo "$P$V: no patch"; exit 1; }
-if [ $V = n ] || [ $V = n2 ] || [ $V = n3 ]; then
+if [ $V = n ] || [ $V = n2 ] || [ $V = n3 ] || [ $V = n4 ]; then
   git apply $OUT/patch_$V.diff || { echo "$P$V: patch does not apply"; exit 1; }
   t=$(/venv/bin/python -m pytest -q -p no:cacheprovider tests/unit 2>&1 | tail -1)
   bad=""
